@@ -206,3 +206,8 @@ C08 = wire_check("C08", "C08", "model_checking",
     rule="every method of every resource x every implementation outcome (value, overridden status, typed nil result, ErrorResponse with every subset of its scalar fields set, plain error, wrapped ErrorResponse, panic(string), panic(error)) executed through generated client -> wire -> real server -> mock; checked: client error carries an equal ErrorResponse, HTTP status = its status or 500, error header iff error, failures have a status >= 400 and carry the message, no panic escapes ServeHTTP, success statuses are the protocol defaults unless overridden, the resource's error object is bit-for-bit unchanged; plus a shared error object over 3 sequential requests and every assignment of {result, error, status} to 3 batch keys; states = (resource, method), transitions = calls",
     assumptions=["a default message supplied for an ErrorResponse without message is accepted (the client must still see every field the resource set)",
                  "concurrent sharing of error objects is explored by C17"])
+
+
+C16 = wire_check("C16", "C16", "model_checking",
+    rule="every keyed root collection x 4 batch methods x every key multiset up to the size bound over an adversarial key pool (FNV-1a-colliding strings found by deterministic search, complex keys equal up to params, keys differing only in escaping-relevant characters, empty string, reserved characters) x scripted replies (rotating assignment of keys to {results, statuses, errors}; all 8^3 assignments and a never-requested key in each map for a base key set), through generated client -> wire -> server -> mock; checked: duplicates rejected before anything is sent, ids on the wire list each encoded key exactly once in ascending order, every response entry is filed under the caller's own key value (pointer identity for complex keys), nothing lost / duplicated / misattributed, an unrequested key yields an error; states = (resource, method), transitions = calls",
+    assumptions=["bytes-keyed collections are absent: the generator's output for them does not compile (recorded under C12)"])
